@@ -75,6 +75,10 @@ func (g hgen) call() stack.Call {
 	if r.Intn(4) == 0 {
 		c.Func.Name = "(*" + g.str(2) + ")." + g.str(2)
 	}
+	if r.Intn(6) == 0 {
+		// receiver look-alikes that are not the method form: unbalanced or empty parentheses
+		c.Func.Name = []string{"(*" + g.str(2), "(" + g.str(2), "(", "()", "(*)." + g.str(2), "(*" + g.str(2) + ")", "(*" + g.str(2) + ").", ")" + g.str(2) + "(", "(*a.b).c"}[r.Intn(9)]
+	}
 	c.Func.IsExported = r.Intn(2) == 0
 	c.Func.IsPkgMain = r.Intn(6) == 0
 	c.ImportPath = c.Func.ImportPath
